@@ -23,7 +23,9 @@ MANIFEST = dict(
           "of iwkv_close); checkpoint thread idle; tree = /repo + fix commits of branch fix-wal0504"),
     technique="Lean 4 proof over executable model + crash enumeration with link-time interposers + differential correspondence")
 MODULE = "IwModel.Props.C04"
-THEOREMS = ["IwModel.C04.replay_idempotent", "IwModel.C04.replay_idempotent_twice", "IwModel.C04.checkpoint_kill_recovers"]
+THEOREMS = ["IwModel.C04.replay_idempotent", "IwModel.C04.replay_idempotent_twice", "IwModel.C04.checkpoint_kill_recovers",
+            "IwModel.C04.writer_recover_savepoint_partial", "IwModel.C04.checkpoint_preserves", "IwModel.C04.forced_checkpoint_exposes_unsaved",
+            "IwModel.C04.forced_checkpoint_witness"]
 WRAPS = ("write", "pwrite64", "ftruncate64", "fsync", "fdatasync", "msync")
 
 
